@@ -785,3 +785,54 @@ Proof.
   - unfold t. rewrite t_len. cbn [length]. rewrite app_length, L1, L2. lia.
   - intros v Hv. apply repeat_spec in Hv. subst v. unfold t. rewrite t_len. cbn [length]. rewrite repeat_length. reflexivity.
 Qed.
+
+(* ---------- 12. compile(), chain case: one unit per row ---------- *)
+Lemma chain_good t : forall (units : list nat), good_from t (map (fun _ : nat => [mkNode true 0 0 (a_zero t) (a_zero t)]) units) 0.
+Proof. induction units as [|u units IH]; [reflexivity|]. cbn [map good_from length getnode nth n_live n_c0 n_c1]. repeat split; try lia; exact IH. Qed.
+Lemma chain_node_at t : forall (units : list nat) x lvl, node_at t (map (fun _ : nat => [mkNode true 0 0 (a_zero t) (a_zero t)]) units) 0 x lvl = 0.
+Proof.
+  induction units as [|u units IH]; intros x lvl; destruct lvl as [|lvl]; try reflexivity. cbn [map node_at]. destruct x as [|c x]; [reflexivity|].
+  replace (child (getnode t [mkNode true 0 0 (a_zero t) (a_zero t)] 0) c) with 0 by (destruct c; reflexivity). apply IH.
+Qed.
+
+Theorem oracle_chain_exact p target t1 t2 :
+  (forall r, r < length (p_rows p) -> exists u, nth r (p_rows p) [] = [u] /\ u < p_units p) ->
+  2 <= p_units p -> target < p_units p ->
+  oracle_query p (fst (compile_chain (p_type p) (p_units p) (map (fun r => (hd 0 r, true)) (p_rows p))))
+                 (snd (compile_chain (p_type p) (p_units p) (map (fun r => (hd 0 r, true)) (p_rows p)))) target t1 t2
+  = Some (count_spec p target t1 t2).
+Proof.
+  intros Hrows Hn Htg. unfold compile_chain. cbn [fst snd]. set (t := p_type p). set (n := p_units p) in *.
+  apply oracle_exact; try assumption; try reflexivity.
+  - split; cbn [chain d_type d_levels d_root].
+    + intros l nd Hl Hnd. apply in_map_iff in Hl. destruct Hl as [u [<- _]]. destruct Hnd as [<-|[]]. split; apply a_zero_wt.
+    + apply chain_good.
+  - intros l nd Hl Hnd. cbn [chain d_levels d_type] in *. apply in_map_iff in Hl. destruct Hl as [u [<- _]]. destruct Hnd as [<-|[]]. split; reflexivity.
+  - cbn [chain d_levels]. rewrite map_length, seq_length. reflexivity.
+  - intros x Hx r Hr. destruct (Hrows r Hr) as [u [Eu Hu]]. rewrite Eu.
+    match goal with |- hits _ _ ?LL = _ => assert (El : LL = [(u, 0, true)]) end.
+    { rewrite map_map. rewrite (nth_indep _ [] ((fun r0 : list nat => [(fst (hd 0 r0, true), 0, snd (hd 0 r0, true))]) [])) by (rewrite map_length; exact Hr).
+      rewrite (map_nth (fun r0 : list nat => [(fst (hd 0 r0, true), 0, snd (hd 0 r0, true))])). rewrite Eu. reflexivity. }
+    rewrite El. unfold hits. cbn [filter on_loc chain d_type d_levels d_root].
+    rewrite on_path_node by (rewrite ?map_length, ?seq_length; lia). rewrite chain_node_at. cbn [Nat.eqb andb].
+    unfold row_present. cbn [forallb]. rewrite andb_true_r. destruct (nth u x false); reflexivity.
+  - intros r u Hin. destruct (Nat.lt_ge_cases r (length (p_rows p))) as [Hr|Hr].
+    + destruct (Hrows r Hr) as [u' [Eu Hu']]. rewrite Eu in Hin. destruct Hin as [<-|[]]. exact Hu'.
+    + rewrite nth_overflow in Hin by exact Hr. destruct Hin.
+Qed.
+
+(* ---------- 13. a concrete instance ---------- *)
+Definition oracle_chain_instance_statement : Prop :=
+  let p := mkProb 3 [[0]; [1]; [1]; [2]] [0; 1; 0; 1] [3#1; 1#1; 2#1; 5#2]%Q 2 2 2 in
+  (forall r, r < length (p_rows p) -> exists u, nth r (p_rows p) [] = [u] /\ u < p_units p) /\
+  oracle_query p (fst (compile_chain (p_type p) (p_units p) (map (fun r => (hd 0 r, true)) (p_rows p))))
+                 (snd (compile_chain (p_type p) (p_units p) (map (fun r => (hd 0 r, true)) (p_rows p)))) 1 2 (Some 3)
+  = Some (count_spec p 1 2 (Some 3)) /\
+  2 <= length (filter (fun c => negb (Nat.eqb c 0)) (count_spec p 1 2 (Some 3))).
+Example oracle_chain_instance : oracle_chain_instance_statement.
+Proof.
+  unfold oracle_chain_instance_statement. cbv zeta. split; [|split].
+  - intros r Hr. cbn in Hr. destruct r as [|[|[|[|r]]]]; cbn; try lia; eexists; split; try reflexivity; lia.
+  - vm_compute. reflexivity.
+  - vm_compute. lia.
+Qed.
